@@ -76,6 +76,7 @@ def table_state_objects_immutable(kind: int, dv: int, sv: int, mv: int, val: str
                 st = tr.get_state('m0')
                 st.mk_metric_value()
                 st.MetricValue.Value = val
+                st.BodySite.append(pm_types.CodedValue(val or 'c'))      # in-place write into a list that is EMPTY in the MDIB
         elif kind == 1:
             with pm.alert_state_transaction(set_determination_time=False) as tr:
                 tr.get_state('ac0').Presence = True
@@ -84,7 +85,10 @@ def table_state_objects_immutable(kind: int, dv: int, sv: int, mv: int, val: str
                 tr.get_state('vmd0').OperatingCycles = 5
         elif kind == 3:
             with pm.context_state_transaction() as tr:
-                tr.get_context_state('lcs0').LocationDetail.Bed = val
+                st = tr.get_context_state('lcs0')
+                st.LocationDetail.Bed = val
+                st.Validator.append(pm_types.InstanceIdentifier(val or 'r'))      # (empty list in the MDIB)
+                st.Identification.append(pm_types.InstanceIdentifier('root2'))
         elif kind == 4:
             with pm.context_state_transaction() as tr:
                 tr.mk_context_state('lc0', 'lcs9', set_associated=True)
